@@ -39,6 +39,7 @@ class Obligation:
     construct: str = ""
     detail: str = ""
     known: Optional[str] = None  # id of the matching known finding
+    known_what: str = ""
     path: List[str] = field(default_factory=list)
 
     def key(self) -> str:
@@ -125,7 +126,8 @@ class Report:
             for k in self.known:
                 if k.rule == rule and k.site == fq and k.key == ob.construct:
                     ob.known = k.fid
-                    ob.detail = (ob.detail + " " if ob.detail else "") + f"[known finding {k.fid}: {k.what}]"
+                    ob.known_what = k.what
+                    ob.detail = (ob.detail + " " if ob.detail else "") + f"[known finding {k.fid}]"
                     break
         self.obs.append(ob)
         return verdict == "ok"
@@ -174,7 +176,7 @@ class Report:
             if (o.known, o.rule, o.func) in printed_known:
                 continue
             printed_known.add((o.known, o.rule, o.func))
-            lines.append(f"KNOWN-FINDING: property={self.prop} {o.known} {o.rule} {o.func} at {o.where}: {o.what} — {o.construct}")
+            lines.append(f"KNOWN-FINDING: property={self.prop} {o.known} {o.known_what} [{o.rule} {o.func} at {o.where}: {o.construct}]")
         for i, o in enumerate(viol):
             rp = os.path.join(ev_dir, "replay", f"{self.prop}-{i}.json")
             with open(rp, "w", encoding="utf-8") as fh:
